@@ -1,7 +1,106 @@
-"""Thorough tier: variant batteries (firing / silent / repaired twins)."""
+"""Thorough tier: the checker is tested both ways on in-memory variants of the
+current source (DESIGN.md section 5): seeded breakages must fire (and only the
+affected properties may fire), behaviour-preserving rewrites must stay silent."""
 
 from __future__ import annotations
 
+import multiprocessing as mp
+import os
+from typing import Dict, List, Optional, Set, Tuple
 
-def run(prop, ctx, seed):
-    return {}
+from .context import Ctx
+from .model import AnalysisError
+from .report import rules_for, run_rule
+from . import variants as vmod
+
+_STATE: dict = {}
+
+
+def _violations(prop: str, overlay: Dict[str, str]) -> Set[Tuple[str, str]]:
+    ctx = Ctx(_STATE.get("root"), overlay)
+    out: Set[Tuple[str, str]] = set()
+    for r in rules_for(prop):
+        for o in run_rule(r, ctx, prop):
+            if not o.ok:
+                out.add((o.rule, o.key))
+    return out
+
+
+def _work(i: int):
+    v = vmod.V[i]
+    prop = _STATE["prop"]
+    try:
+        ov = v.overlay(_STATE["norm"])
+    except vmod.NotApplicable as e:
+        return (i, "skipped", str(e), [])
+    try:
+        viol = _violations(prop, ov)
+    except AnalysisError as e:
+        return (i, "analysis-error", str(e), [])
+    except Exception as e:  # pragma: no cover
+        return (i, "analysis-error", f"internal: {type(e).__name__}: {e}", [])
+    new = sorted(viol - _STATE["base"])
+    return (i, "ran", "", new)
+
+
+def run(prop: str, ctx: Ctx, seed: int, only: Optional[List[str]] = None, jobs: Optional[int] = None) -> dict:
+    norm = vmod.normalise_sources(ctx.prog)
+    _STATE.update(prop=prop, norm=norm, root=ctx.prog.root)
+    try:
+        _STATE["base"] = _violations(prop, norm)
+    except AnalysisError as e:
+        return {"thorough_failures": [f"baseline on normalised source: {e}"]}
+    idx = [i for i, v in enumerate(vmod.V) if (only is None or v.name in only)]
+    # order by seed (the battery is exhaustive; the seed only permutes it)
+    if seed:
+        import random
+        random.Random(seed).shuffle(idx)
+    jobs = jobs or min(16, os.cpu_count() or 4)
+    if jobs > 1 and len(idx) > 1:
+        with mp.get_context("fork").Pool(jobs) as pool:
+            res = pool.map(_work, idx, chunksize=2)
+    else:
+        res = [_work(i) for i in idx]
+    failures: List[str] = []
+    fired, silent_ok, skipped, crosstalk_ok = 0, 0, 0, 0
+    detail = []
+    for i, status, msg, new in res:
+        v = vmod.V[i]
+        if status == "skipped":
+            skipped += 1
+            detail.append({"variant": v.name, "kind": v.kind, "status": "skipped", "why": msg[:160]})
+            continue
+        if status == "analysis-error":
+            if v.kind == "silent" or prop in v.expect:
+                failures.append(f"{v.name} ({v.kind}): analysis error instead of a verdict: {msg[:200]}")
+            detail.append({"variant": v.name, "kind": v.kind, "status": "analysis-error", "why": msg[:200]})
+            continue
+        if v.kind == "silent":
+            if new:
+                failures.append(f"{v.name} (silent rewrite) raised a false alarm for {prop}: {new[:2]}")
+            else:
+                silent_ok += 1
+        else:
+            if prop in v.expect:
+                if new:
+                    fired += 1
+                else:
+                    failures.append(f"{v.name} (seeded breakage of {sorted(v.expect)}) was NOT detected by {prop}")
+            elif prop in v.allow:
+                crosstalk_ok += 1
+            else:
+                if new:
+                    failures.append(f"{v.name} (breaks {sorted(v.expect)}) made {prop} fire although {prop} still holds: {new[:2]}")
+                else:
+                    crosstalk_ok += 1
+        detail.append({"variant": v.name, "kind": v.kind, "expect": sorted(v.expect), "new_violations": [list(x) for x in new[:3]]})
+    out = {
+        "variants_total": len(idx),
+        "variants_firing": fired,
+        "variants_silent": silent_ok,
+        "variants_not_affecting_this_property_and_quiet": crosstalk_ok,
+        "variants_skipped": skipped,
+        "thorough_failures": failures,
+        "variant_samples": [d for d in detail if d.get("new_violations")][:12],
+    }
+    return out
